@@ -17,6 +17,7 @@ func vpScenario(cmdIdx int) (argv []string, first []byte) {
 	}
 	zzvp.WriteFile(w+"/a", []byte("1"))
 	zzvp.WriteFile(w+"/d/b", []byte("2"))
+	zzvp.WriteFile(w+"/d/c", []byte("2")) // same bytes as d/b: one blob for two paths
 	if cmdIdx == 2 {
 		return []string{"add", "a", "d"}, nil
 	}
